@@ -122,9 +122,49 @@ func c01Run(trim bool) {
 	for _, p := range plans {
 		r.runConsPlan(p)
 	}
+	// a consumer shared by two goroutines that only Get (and commit): together they must receive a
+	// gap-free, duplicate-free run
+	var shared *bufCons
+	if simrt.Chance(1, 3) {
+		gets := [2]int{simrt.DrawRange(1, 5), simrt.DrawRange(1, 5)}
+		commits := [2]bool{simrt.Chance(1, 2), simrt.Chance(1, 2)}
+		pa := [2]pause{drawPause(), drawPause()}
+		r.tasksLeft++
+		go func() {
+			defer func() { r.tasksLeft-- }()
+			pa[0].do(r.unit)
+			shared = r.newConsumer(false, true)
+			if shared == nil {
+				return
+			}
+			simrt.Probe("shared_consumer")
+			for t := 0; t < 2; t++ {
+				t := t
+				r.tasksLeft++
+				go func() {
+					defer func() { r.tasksLeft-- }()
+					pa[t].do(r.unit)
+					for i := 0; i < gets[t]; i++ {
+						if o := r.get(shared, -1); !o.ok {
+							if !o.ctxErr {
+								shared.stopped = true
+							}
+							return
+						}
+						if commits[t] {
+							r.commit(shared)
+						}
+					}
+				}()
+			}
+		}()
+	}
 	r.observer()
 	if !r.finish() {
 		return
+	}
+	if shared != nil {
+		r.rollback(shared)
 	}
 	r.snapshot(true)
 	if c01Oracle(r) {
@@ -172,6 +212,34 @@ func c01Oracle(r *bufRun) bool {
 	}
 	var seqs []seq
 	for _, k := range r.cons {
+		if k.shared {
+			// concurrent Gets: the order between the two goroutines is not defined, the set is
+			seen := map[Val]bool{}
+			lo, hi := 1<<30, -1
+			for _, op := range k.ops {
+				if op.kind != "get" || !op.ok {
+					continue
+				}
+				if seen[op.v] {
+					simrt.Failf("C01.duplicate", "shared consumer %d: %v was returned twice although nobody rolled back", k.id, op.v)
+					return false
+				}
+				seen[op.v] = true
+				if r.orderOK {
+					if p := r.pos[op.v]; p < lo {
+						lo = p
+					}
+					if p := r.pos[op.v]; p > hi {
+						hi = p
+					}
+				}
+			}
+			if r.orderOK && hi >= 0 && hi-lo+1 != len(seen) {
+				simrt.Failf("C01.gap", "shared consumer %d: its two goroutines received %d values spanning positions %d..%d: a value was skipped", k.id, len(seen), lo, hi)
+				return false
+			}
+			continue
+		}
 		st, ok := firstDeliveries(r, k)
 		if !ok {
 			return false
@@ -264,6 +332,9 @@ func c01Oracle(r *bufRun) bool {
 		// its creation began; under the default cleaner a Slice taken between its creation and its
 		// first commit/close starts exactly at the consumer's first value.
 		for _, k := range r.cons {
+			if k.shared {
+				continue
+			}
 			st, _ := firstDeliveries(r, k)
 			if len(st) == 0 {
 				continue
